@@ -10,6 +10,7 @@ package main
 import (
 	"fmt"
 	"math/rand"
+	"os"
 )
 
 const (
@@ -52,7 +53,8 @@ type ChildSpec struct {
 	Wrap          bool   `json:"wrap,omitempty"`          // the task leader is a wrapper; the device is its child and SURVIVES the wrapper's death, keeping the connection open
 	SlowOn        string `json:"slow_on,omitempty"`       // this device step takes SlowMs and is then performed normally
 	SlowMs        int    `json:"slow_ms,omitempty"`
-	User          bool   `json:"user,omitempty"` // the command info names a user (the current one): prepareTaskCmd's credential branch
+	User          bool   `json:"user,omitempty"`            // the command info names a user (the current one): prepareTaskCmd's credential branch
+	NoCommandData bool   `json:"no_command_data,omitempty"` // TaskInfo.Data is empty: NewTask returns nil
 	BadCommand    bool   `json:"bad_command,omitempty"`
 	Noise         bool   `json:"noise,omitempty"`
 }
@@ -75,13 +77,15 @@ type Step struct {
 }
 
 type Case struct {
-	Prop     string    `json:"prop,omitempty"` // "" = C17, "C16B"
-	Idx      int       `json:"idx"`
-	Kind     string    `json:"kind"` // basic hook direct fairmq
-	Scenario string    `json:"scenario"`
-	Variant  string    `json:"variant"`
-	Child    ChildSpec `json:"child"`
-	Steps    []Step    `json:"steps"`
+	Prop string `json:"prop,omitempty"` // "" = C17, "C16B"
+	// ViaHandlers: launch/transition/trigger/kill go through the real executor/handlers.go
+	ViaHandlers bool      `json:"via_handlers,omitempty"`
+	Idx         int       `json:"idx"`
+	Kind        string    `json:"kind"` // basic hook direct fairmq
+	Scenario    string    `json:"scenario"`
+	Variant     string    `json:"variant"`
+	Child       ChildSpec `json:"child"`
+	Steps       []Step    `json:"steps"`
 	// KilledOnRequest: the child never ends on its own, so any end of it is caused
 	// by the stop/kill request and a FAILED report after the request is a violation.
 	KilledOnRequest bool `json:"killed_on_request"`
@@ -619,6 +623,114 @@ func c16bTemplates() []template {
 	return ts
 }
 
+// handler mode --------------------------------------------------------------------
+// The same kinds of requests, but delivered to the real executor/handlers.go as the JSON the core
+// sends; in particular requests the handlers must turn down without dying: for a task whose device
+// never connects, that is being killed or has just died, malformed payloads, unknown task ids.
+
+func raw(what string) Step { return Step{Op: "raw", What: what} }
+
+func handlerTemplates() []template {
+	var ts []template
+	add := func(kind, scn, variant string, f func(r *rand.Rand, c *Case)) {
+		ts = append(ts, template{kind, scn, variant, func(r *rand.Rand, c *Case) {
+			c.Child.TermExit = -1
+			c.ViaHandlers = true
+			f(r, c)
+		}})
+	}
+	ready := []Step{stLAUNCH, await("ready", 1, 15000)}
+	with := func(pre []Step, more ...Step) []Step { return append(append([]Step(nil), pre...), more...) }
+	async := func(s Step) Step { s.Async = true; return s }
+
+	add("basic", "h-stop-then-kill", "plain", func(r *rand.Rand, c *Case) {
+		c.Steps = with(ready, stCONFIGURE, stSTART, sleepStep(u(r, 0, 300)), stSTOP, sleepStep(u(r, 0, 100)), stKILL)
+		c.KilledOnRequest, c.JudgeSurvivors = true, true
+	})
+	add("basic", "h-kill-running", "grandchild", func(r *rand.Rand, c *Case) {
+		c.Child.Grandchild = "plain"
+		c.Steps = with(ready, stCONFIGURE, stSTART, sleepStep(u(r, 0, 300)), stKILL)
+		c.KilledOnRequest, c.JudgeSurvivors = true, true
+	})
+	add("basic", "h-kill-before-start", "immediately", func(r *rand.Rand, c *Case) {
+		c.Steps = []Step{stLAUNCH, sleepStep(u(r, 0, 20)), stKILL}
+		c.JudgeSurvivors = true
+	})
+	add("basic", "h-bad-payloads", "plain", func(r *rand.Rand, c *Case) {
+		c.Steps = with(ready, raw("malformed-transition"), raw("unknown-task"), raw("unknown-command"), raw("no-target"), raw("broken-json"),
+			raw("malformed-trigger"), stCONFIGURE, stSTART, stTRIGGER, sleepStep(u(r, 0, 200)), stSTOP, stKILL, stCONFIGURE)
+		c.KilledOnRequest, c.JudgeSurvivors = true, true
+	})
+	if os.Getenv("VERIF_C17_BADLAUNCH") != "" {
+		// opt-in (fires on the unchanged tree, see the report): a LAUNCH whose TaskInfo.Data is empty
+		add("basic", "h-requests-after-failed-launch", "no-command-data", func(r *rand.Rand, c *Case) {
+			c.Child.NoCommandData = true
+			c.Steps = []Step{stLAUNCH, stCONFIGURE, stKILL}
+		})
+	}
+
+	add("hook", "h-trigger-exit-kill", "exit-2", func(r *rand.Rand, c *Case) {
+		c.Child.LifeMs, c.Child.ExitCode = u(r, 50, 300), 2
+		c.Steps = with(ready, stTRIGGER, await("terminal", 1, 8000), sleepStep(u(r, 0, 200)), stKILL)
+		c.JudgeSurvivors = true
+	})
+	add("hook", "h-kill-then-trigger", "exit-0", func(r *rand.Rand, c *Case) {
+		c.Child.LifeMs = u(r, 50, 300)
+		c.Steps = with(ready, stKILL, sleepStep(u(r, 0, 300)), stTRIGGER, raw("unknown-task-trigger"), sleepStep(600))
+	})
+	add("hook", "h-trigger-and-kill-concurrently", "exit-0", func(r *rand.Rand, c *Case) {
+		c.Child.LifeMs = u(r, 50, 200)
+		c.Steps = with(ready, async(stTRIGGER), sleepStep(u(r, 0, 3)), stKILL, sleepStep(800))
+	})
+	add("hook", "h-trigger-bad-command", "bad-command", func(r *rand.Rand, c *Case) {
+		c.Child.BadCommand = true
+		c.Steps = with(ready, stTRIGGER, raw("malformed-trigger"), stKILL)
+		c.JudgeSurvivors = true
+	})
+
+	for _, kind := range []string{"direct", "fairmq"} {
+		kind := kind
+		add(kind, "h-kill-running-state", "grandchild", func(r *rand.Rand, c *Case) {
+			c.Child.Grandchild = "plain"
+			c.Child.ReadyAfterMs = u(r, 0, 400)
+			c.Steps = with(ready, stCONFIGURE, stSTART, sleepStep(u(r, 0, 200)), stKILL)
+			c.KilledOnRequest, c.JudgeSurvivors = true, true
+		})
+		add(kind, "h-requests-never-connected", "nolisten", func(r *rand.Rand, c *Case) {
+			// still in activeTasks, no rpc client: every transition ends in the handler's error path
+			c.Child.NeverReady = "nolisten"
+			c.Steps = []Step{stLAUNCH, sleepStep(u(r, 200, 1200)), stCONFIGURE, stTRIGGER, raw("malformed-transition"), sleepStep(u(r, 0, 300)), stSTART, stKILL}
+			c.KilledOnRequest, c.JudgeSurvivors = true, true
+			c.ObserveMs = codeStartupTimeoutMs + escalationMs + 2000
+		})
+		add(kind, "h-transitions-during-kill", "lingers", func(r *rand.Rand, c *Case) {
+			c.Child.Linger = true
+			c.Child.ReadyAfterMs = u(r, 0, 300)
+			c.Steps = with(ready, stCONFIGURE, async(stKILL))
+			for i := 0; i < 8; i++ {
+				c.Steps = append(c.Steps, sleepStep(u(r, 20, 400)), async(stSTART))
+			}
+			c.Steps = append(c.Steps, Step{Op: "join"})
+			c.KilledOnRequest, c.JudgeSurvivors = true, true
+		})
+		add(kind, "h-transitions-around-death", "exit-4", func(r *rand.Rand, c *Case) {
+			c.Child.LifeMs, c.Child.ExitCode = 1500, 4
+			c.Steps = []Step{stLAUNCH, await("child-started", 1, 5000), await("ready", 1, 1300), Step{Op: "sleep-rel", Ms: 1500 - u(r, 150, 250)}}
+			for i := 0; i < 8; i++ {
+				c.Steps = append(c.Steps, async(stCONFIGURE), sleepStep(u(r, 20, 90)))
+			}
+			c.Steps = append(c.Steps, Step{Op: "join"}, await("terminal", 1, 8000), stCONFIGURE, stKILL)
+		})
+		add(kind, "h-bad-payloads", "plain", func(r *rand.Rand, c *Case) {
+			c.Child.ReadyAfterMs = u(r, 0, 300)
+			c.Steps = with(ready, raw("malformed-transition"), raw("unknown-task"), raw("unknown-command"), raw("broken-json"), stTRIGGER,
+				stCONFIGURE, raw("malformed-transition"), stKILL, stSTART)
+			c.KilledOnRequest, c.JudgeSurvivors = true, true
+		})
+	}
+	return ts
+}
+
 func templatesFor(prop string) []template {
 	if prop == "C16B" {
 		return c16bTemplates()
@@ -636,9 +748,16 @@ func allTemplates() []template {
 }
 
 // makeCase builds case idx deterministically from the PRNG.
+// handlerBase: C17 case indices from here on are handler-mode cases (set by the batch child).
+var handlerBase = 1 << 30
+
 func makeCase(prop string, idx int, r *rand.Rand) *Case {
 	ts := templatesFor(prop)
 	t := ts[idx%len(ts)]
+	if idx >= handlerBase {
+		ts = handlerTemplates()
+		t = ts[(idx-handlerBase)%len(ts)]
+	}
 	if prop == "C17" {
 		prop = ""
 	}
